@@ -6,7 +6,7 @@
    This file holds only the property theorems, each closed by [exact] and followed by
    Print Assumptions. *)
 From Coq Require Import List ZArith.
-From MirV Require Import C03.Thunk C03.ThunkBytesProofs C03.ThunkProofs.
+From MirV Require Import C03.Thunk C03.ThunkBytesProofs C03.ThunkProofs C03.ArgPass C03.ArgPassProofs.
 Local Open Scope Z_scope.
 
 (* _MIR_redirect_thunk followed by a jump to the thunk lands on `to`, for either encoding
@@ -158,6 +158,36 @@ Theorem bb_thunk_far_refuted :
 Proof. exact ThunkBytesProofs.bb_thunk_far_refuted. Qed.
 Print Assumptions bb_thunk_far_refuted.
 
+(* ---- where arguments travel at a call through a public address (round 3) ----
+   For every parameter list the engines accept -- any number of integer, floating point, long double and
+   by-value block parameters of every class in any order -- the interpreter's C-call interface (the va_list walk
+   of interp () with va_block_arg_builtin over the shim's register save area) fetches every eightbyte of every
+   argument from the register / stack slot where the interpreter calling out (_MIR_get_ff_call) puts it ... *)
+Theorem shim_fetches_where_ff_call_passes : forall ps,
+  wf_params ps = true -> va_walk ps = ff_walk ps.
+Proof. exact va_walk_eq_ff_walk. Qed.
+Print Assumptions shim_fetches_where_ff_call_passes.
+
+(* ... and generated code (machinize_call for calls, target_machinize for the callee's prologue) uses the same
+   slots, although it counts registers differently (its counters run past the register files). *)
+Theorem gen_passes_where_ff_call_passes : forall ps,
+  wf_params ps = true -> gen_walk ps = ff_walk ps.
+Proof. exact gen_walk_eq_ff_walk. Qed.
+Print Assumptions gen_passes_where_ff_call_passes.
+
+(* So whichever engine runs the caller and whichever runs the callee, they agree on where each argument is. *)
+Theorem engines_agree_on_argument_locations : forall ps,
+  wf_params ps = true ->
+  va_walk ps = ff_walk ps /\ gen_walk ps = ff_walk ps /\ va_walk ps = gen_walk ps.
+Proof. exact all_walks_agree. Qed.
+Print Assumptions engines_agree_on_argument_locations.
+
+(* The bounds of wf_params (asserted in the C code) are needed. *)
+Theorem argument_locations_oversize_block_refuted :
+  exists ps, wf_params ps = false /\ va_walk ps <> ff_walk ps.
+Proof. exact oversize_block_refuted. Qed.
+Print Assumptions argument_locations_oversize_block_refuted.
+
 (* ---- non-vacuity: concrete histories the hypotheses are met by ---- *)
 Import ListNotations.
 Definition ex_callees (f : nat) : list nat := match f with 0%nat => [1%nat] | _ => [] end.
@@ -194,3 +224,16 @@ Example ex_unlinked_stuck :
         | Ok w => w | Stuck _ => init_world 0 0 end)
        (OCall 1 []) = Stuck SUndefined.
 Proof. vm_compute. reflexivity. Qed.
+
+(* the register-file boundary of the SSE class: after seven floating point parameters a 16-byte SSE block goes to
+   the stack and the next floating point parameter still gets xmm7; after six it takes xmm6 and xmm7 *)
+Example ex_sse_block_boundary :
+  wf_params [PFp; PFp; PFp; PFp; PFp; PFp; PFp; PBlk 2 16; PFp] = true
+  /\ va_walk [PFp; PFp; PFp; PFp; PFp; PFp; PFp; PBlk 2 16; PFp]
+     = [[RFp 0]; [RFp 1]; [RFp 2]; [RFp 3]; [RFp 4]; [RFp 5]; [RFp 6]; [Stk 0; Stk 8]; [RFp 7]]
+  /\ gen_walk [PFp; PFp; PFp; PFp; PFp; PFp; PBlk 2 16; PFp]
+     = [[RFp 0]; [RFp 1]; [RFp 2]; [RFp 3]; [RFp 4]; [RFp 5]; [RFp 6; RFp 7]; [Stk 0]]
+  /\ ff_walk [PInt; PInt; PInt; PInt; PInt; PBlk 3 12; PLd; PBlk 1 9; PInt; PBlk 0 17]
+     = [[RInt 0]; [RInt 1]; [RInt 2]; [RInt 3]; [RInt 4]; [RInt 5; RFp 0]; [Stk 0; Stk 8]; [Stk 16; Stk 24];
+        [Stk 32]; [Stk 40; Stk 48; Stk 56]].
+Proof. vm_compute. repeat split. Qed.
